@@ -84,7 +84,7 @@ def main():
     jobs = 4
     if args[:1] == ["-j"]:
         jobs = int(args[1]); args = args[2:]
-    ids = args or sorted(p.name for p in (VERIF / "seeded").iterdir() if (p / "patch.diff").exists())
+    ids = args or sorted(p.name for p in (VERIF / "seeded").iterdir() if (p / "patch.diff").exists() and not json.loads((p / "meta.json").read_text()).get("superseded"))
     Path("/tmp/mx").mkdir(exist_ok=True)
     with ThreadPoolExecutor(jobs) as ex:
         for sid, msg in ex.map(one, ids):
